@@ -70,9 +70,13 @@ def run(run):
         return
     _r4_geometry(run, ev, fields_a, fields_b)
     for label, fields in (("plain tiling", fields_a), ("sub-image tiling", fields_b)):
-        _r1_r2(run, ev, label, fields)
+        if fields is not None:      # (the sub-image state could not be derived: already reported UNDECIDED)
+            _r1_r2(run, ev, label, fields)
     _r3_tile_image(run, ev)
     _r5_clones(run)
+    # a count (or anything else) remembered on the tiling object must be forgotten when the rectangle it was computed from changes
+    from . import memo
+    memo.check_attribute_caches(run, "C08.R1", ST)
     parity.check(run, "C08.R6", skip_classes=("ToastSampler", "TileMerger"))
     # "pixels outside the image are undefined": the tile buffer is pre-filled as a whole with the mode's undefined value
     # before the rectangle is copied in (decided by C15's per-mode convention rule)
@@ -141,6 +145,12 @@ def _object_states(run, ev):
     run.note_func(init)
     r = ev.run(init.node)
     fa = {}
+    # class-level defaults are the state of a fresh object too (e.g. an empty `_cache = None`): whether something
+    # remembered there can go stale is the attribute-cache rule's business, not the arithmetic's
+    if init.cls is not None:
+        for m in init.cls.body:
+            if isinstance(m, ast.Assign) and len(m.targets) == 1 and isinstance(m.targets[0], ast.Name) and isinstance(m.value, ast.Constant):
+                fa[m.targets[0].id] = ("const", m.value.value) if not isinstance(m.value.value, (int, float)) or isinstance(m.value.value, bool) else num(m.value.value)
     for e in r.events:
         if e.kind == "store" and e.term[1][0][0] == "attr" and e.term[1][0][1] == SELF:
             fa[e.term[1][0][2]] = e.term[1][1]
@@ -157,19 +167,27 @@ def _object_states(run, ev):
     run.note_func(cfs)
     rc = ev.run(cfs.node)
     ctor = [e for e in rc.events if e.kind == "call" and e.term[1] == ("sym", "StudyTiling")]
-    if len(ctor) != 1:
+    copies = [e for e in rc.events if e.kind == "call" and show(e.term[1]).split(".")[-1] in ("copy", "deepcopy") and tuple(e.term[2]) == (SELF,)]
+    if len(ctor) == 1:
+        ct = ctor[0].term
+        # parent fields: the parent's own fields are symbols self.<f>; the fresh object gets __init__ applied to the ctor args
+        args = {"width": ct[2][0] if len(ct[2]) > 0 else None, "height": ct[2][1] if len(ct[2]) > 1 else None}
+        for k, v in ct[3]:
+            args[k] = v
+    elif not ctor and len(copies) == 1:
+        # a copy of the parent: for a parent that is a plain tiling (the documented use) its fields are what __init__ makes of
+        # the parent's own width and height -- the same state as constructing StudyTiling(self._width, self._height)
+        ctor = copies
+        ct = copies[0].term
+        args = {"width": ("attr", SELF, "_width"), "height": ("attr", SELF, "_height")}
+    else:
         run.undecided("C08.R4", cfs, None, "compute_for_subimage does not construct exactly one StudyTiling", kind="subimage-ctor")
         return fa, None
-    ct = ctor[0].term
-    # parent fields: the parent's own fields are symbols self.<f>; the fresh object gets __init__ applied to the ctor args
-    args = {"width": ct[2][0] if len(ct[2]) > 0 else None, "height": ct[2][1] if len(ct[2]) > 1 else None}
-    for k, v in ct[3]:
-        args[k] = v
     if args["width"] is None or args["height"] is None:
         run.undecided("C08.R4", cfs, ctor[0].node, "cannot bind the constructor arguments", kind="subimage-ctor-args")
         return fa, None
     r0 = ev.run(init.node, args={"width": args["width"], "height": args["height"]})
-    f0 = {}
+    f0 = {k: v for k, v in fa.items() if v[0] == "const" and k not in need}      # class-level defaults of a fresh object
     for e in r0.events:
         if e.kind == "store" and e.term[1][0][0] == "attr" and e.term[1][0][1] == SELF:
             f0[e.term[1][0][2]] = e.term[1][1]
